@@ -377,6 +377,11 @@ type History struct {
 	// weights
 	WInsert, WUpdate, WDelete int
 	RejectProb                float64
+	// BigProb is the probability of a large insert batch (520..BigMax points, several multiples of
+	// any internal chunk or transaction size), half of them carrying an already stored or repeated id
+	// at the first, a middle, a late (>= 512) or the last position.
+	BigProb float64
+	BigMax  int
 }
 
 func NewHistory(g *G) *History {
@@ -422,6 +427,25 @@ func (h *History) Next(m *model.Model) Op {
 		w = 0
 	}
 	n := h.batchSize()
+	if h.BigProb > 0 && r.Float64() < h.BigProb {
+		n = 520 + r.IntN(max(1, h.BigMax-520))
+		op := Op{Kind: OpInsert, Tag: fmt.Sprintf("big-insert-%d", n)}
+		for i := 0; i < n; i++ {
+			op.Points = append(op.Points, model.Point{Id: h.G.NewId(), Doc: h.G.Doc()})
+		}
+		if r.IntN(2) == 0 {
+			pos := []int{0, n / 2, 512 + r.IntN(n-512), n - 1}[r.IntN(4)]
+			if sid, ok := h.pickStored(m); ok && r.IntN(3) != 0 {
+				op.Points[pos].Id = sid
+				op.Tag = fmt.Sprintf("big-insert-existing-id@%d/%d", pos, n)
+			} else {
+				other := (pos + 1 + r.IntN(n-1)) % n
+				op.Points[pos].Id = op.Points[other].Id
+				op.Tag = fmt.Sprintf("big-insert-duplicate@%d/%d", pos, n)
+			}
+		}
+		return op
+	}
 	switch {
 	case w < h.WInsert:
 		op := Op{Kind: OpInsert, Tag: "insert-fresh"}
